@@ -43,6 +43,9 @@ type Ctx struct {
 	fileOf  map[*ast.FuncDecl]*ast.File
 	loadEnv []string
 
+	passThroughMemo map[*ssa.Function][]int
+	starErrMemo     map[*ssa.Function]int
+
 	rep *Report
 }
 
@@ -69,7 +72,7 @@ func load(o loadOpts) (*Ctx, error) {
 	if err != nil {
 		return nil, fmt.Errorf("packages.Load: %w", err)
 	}
-	c := &Ctx{repo: o.repo, fset: fset, pkgs: pkgs, funcs: map[string]*ssa.Function{}, declOf: map[*types.Func]*ast.FuncDecl{}, fileOf: map[*ast.FuncDecl]*ast.File{}}
+	c := &Ctx{repo: o.repo, fset: fset, pkgs: pkgs, funcs: map[string]*ssa.Function{}, passThroughMemo: map[*ssa.Function][]int{}, starErrMemo: map[*ssa.Function]int{}, declOf: map[*types.Func]*ast.FuncDecl{}, fileOf: map[*ast.FuncDecl]*ast.File{}}
 	var errs []string
 	for _, p := range pkgs {
 		for _, e := range p.Errors {
@@ -114,7 +117,16 @@ func load(o loadOpts) (*Ctx, error) {
 			}
 		}
 	}
-	sort.Slice(c.allFns, func(i, j int) bool { return c.allFns[i].Pos() < c.allFns[j].Pos() })
+	sort.Slice(c.allFns, func(i, j int) bool {
+		pi, pj := c.fset.Position(c.allFns[i].Pos()), c.fset.Position(c.allFns[j].Pos())
+		if pi.Filename != pj.Filename {
+			return pi.Filename < pj.Filename
+		}
+		if pi.Offset != pj.Offset {
+			return pi.Offset < pj.Offset
+		}
+		return fnName(c.allFns[i]) < fnName(c.allFns[j])
+	})
 	for _, p := range []*packages.Package{c.P, c.G} {
 		for _, f := range p.Syntax {
 			for _, d := range f.Decls {
